@@ -495,6 +495,11 @@ func (x *sbExec) do(a sbAct) bool {
 		}
 		x.release(key, a.Ok)
 	case "fetch":
+		for t := 0; t < sbNT; t++ { // a fetch would join the partition's init flight and block this goroutine
+			if x.has(fmt.Sprintf("no:%d", t)) || x.has(fmt.Sprintf("ct:%d", t)) {
+				return false
+			}
+		}
 		x.tags["fetch"] = true
 		inflight := false
 		for t := 0; t < sbNT; t++ {
